@@ -88,15 +88,19 @@ func (c *conn) Close() error {
 // 5. Closes the underlying stream associated with the connection.
 // It returns any error encountered while closing the stream.
 func (c *conn) terminate(err error) error {
+	vp("term.enter", c)
 	if c.closed.Swap(true) {
 		// Server is already closed. Nothing to do
 		return nil
 	}
 	c.logger.Debug("Terminating connection")
+	vp("term.cancel", c)
 	c.cancel(err) // Cancel the server context
+	vp("term.txswap", c)
 	if tx := c.tx.Swap(chan txMsg(nil)); tx != nil && tx != chan txMsg(nil) {
 		close(tx.(chan txMsg))
 	}
+	vp("term.sockclose", c)
 	return c.stream.Close() // Close the connection
 }
 
@@ -123,7 +127,10 @@ func (c *conn) checkAvailable() error {
 func (c *conn) readloop() {
 	defer c.logger.Debug("Exittig readloop")
 	defer close(c.rx)
+	defer vp("rl.exit", c)
+	vp("rl.enter", c)
 	for !c.closed.Load() {
+		vp("rl.recv", c)
 		msg := recvMsg{}
 		err := c.stream.Recv(&msg)
 		if err != nil && !ttlv.IsErrEncoding(err) {
@@ -146,6 +153,7 @@ func (c *conn) readloop() {
 			err: err,
 		}
 
+		vp("rl.offer", c)
 		select {
 		case c.rx <- resp:
 		case <-c.ctx.Done():
@@ -160,18 +168,23 @@ func (c *conn) readloop() {
 // Any remaining messages in the tx channel are not drained when the context is canceled (see TODO).
 func (c *conn) writeloop() {
 	defer c.logger.Debug("Exittig writeloop")
+	defer vp("wl.exit", c)
+	vp("wl.enter", c)
 	tx := c.tx.Load().(chan txMsg)
 	for !c.closed.Load() {
+		vp("wl.select", c)
 		select {
 		case req, ok := <-tx:
 			if !ok {
 				return
 			}
+			vp("wl.send", c)
 			if err := c.stream.Send(req.msg); err != nil {
 				c.logger.Debug("write fail:", "err", err)
 				if errors.Is(err, net.ErrClosed) {
 					err = io.ErrClosedPipe
 				}
+				vp("wl.report", c)
 				req.err <- err
 				close(req.err)
 				// Close the client
@@ -199,13 +212,17 @@ func (c *conn) writeloop() {
 // Returns:
 //   - error: An error if sending fails, the connection is unavailable, or the context is done.
 func (c *conn) send(msg *kmip.ResponseMessage) error {
+	vp("send.avail", c)
 	if err := c.checkAvailable(); err != nil {
 		return err
 	}
+	vp("send.load", c)
 	tx := c.tx.Load().(chan txMsg)
 	errCh := make(chan error)
+	vp("send.select", c)
 	select {
 	case tx <- txMsg{msg: msg, err: errCh}:
+		vp("send.wait", c)
 		select {
 		case err := <-errCh:
 			return err
@@ -233,9 +250,11 @@ func (c *conn) send(msg *kmip.ResponseMessage) error {
 //   - *kmip.RequestMessage: The received request message, or nil if an error occurred.
 //   - error: An error if the context is canceled, the connection is closed, or another issue occurs.
 func (c *conn) recv(ctx context.Context) (*kmip.RequestMessage, error) {
+	vp("recv.avail", c)
 	if err := c.checkAvailable(); err != nil {
 		return nil, err
 	}
+	vp("recv.select", c)
 	select {
 	case resp, ok := <-c.rx:
 		if !ok {
